@@ -220,3 +220,16 @@ Definition checked_ctor (max : N) (w : nat) (try_new try_from : N -> tried)
    it never hands new_unchecked an out-of-range value, and what it returns is in range *)
 Definition acc_in_range (acc : bytes -> res N) (max : N) : Prop :=
   forall s, bytes_ok s -> acc s <> Fail UBRange /\ forall v, acc s = Val v -> v <= max.
+
+(* a decoding function never reaches an out-of-range new_unchecked, and what it returns satisfies P *)
+Definition no_ub {A} (r : res A) (P : A -> Prop) : Prop :=
+  r <> Fail UBRange /\ forall a, r = Val a -> P a.
+
+Definition v4_in_range (h : Ipv4Header) : Prop :=
+  v4_dscp h <= IpDscp_MAX_U8 /\ v4_ecn h <= IpEcn_MAX_U8 /\ v4_fragment_offset h <= IpFragOffset_MAX_U16.
+
+Definition v6_in_range (h : Ipv6Header) : Prop :=
+  v6_traffic_class h < 256 /\ v6_flow_label h <= Ipv6FlowLabel_MAX_U32.
+
+Definition vlan_in_range (h : SingleVlanHeader) : Prop :=
+  vlan_pcp h <= VlanPcp_MAX_U8 /\ vlan_id h <= VlanId_MAX_U16.
